@@ -129,6 +129,11 @@ func c12Apply(m *ds.ValueMap, model map[string]int, o vmOp, vals func(int) *ds.V
 			return fmt.Sprintf("Length got %d want %d", g, len(model))
 		}
 	case "JSON":
+		for _, mv := range model {
+			if mv == 0 {
+				return "" // a nil value is a map matter, not a JSON matter: skip the round trip
+			}
+		}
 		b, err := m.ToJSON()
 		if err != nil {
 			return "ToJSON error: " + err.Error()
@@ -224,6 +229,9 @@ func c12Random(w *fw.W, idx int, r *fw.Rand) {
 	keys := []string{"a", "b", "c", "d"}
 	vobj := map[int]*ds.VMValue{}
 	vals := func(i int) *ds.VMValue {
+		if i == 0 {
+			return nil // a key may be stored with a nil value: it is still a key
+		}
 		if vobj[i] == nil {
 			vobj[i] = ds.NewIntVal(ds.IntType(i))
 		}
@@ -250,7 +258,7 @@ func c12Random(w *fw.W, idx int, r *fw.Rand) {
 				o = vmOp{"Length", "", 0}
 			}
 		} else {
-			o = vmOp{r.Pick(kinds), r.Pick(keys), 1 + r.Intn(9)}
+			o = vmOp{r.Pick(kinds), r.Pick(keys), r.Intn(10)} // value 0 = nil
 		}
 		hist = append(hist, fmt.Sprintf("%s(%s,%d)", o.kind, o.k, o.v))
 		if bad := c12Apply(m, model, o, vals); bad != "" {
